@@ -48,7 +48,7 @@ fn kind_ready(k: Kind, c: C) -> bool {
         Kind::Future => c.0 >= 3,
         Kind::Targeted => c.1 >= 1,
         Kind::Untargeted => c.1 >= 2,
-        Kind::SkipExpired | Kind::Unregistered => false,
+        Kind::SkipExpired | Kind::SkipFuture | Kind::Unregistered => false,
     }
 }
 
@@ -199,6 +199,7 @@ pub fn run(r: &Report) {
                 blank: true,
                 rich: false,
                 short_unwrap: false,
+                shared_lines: false,
             },
             3,
         ),
@@ -215,6 +216,7 @@ pub fn run(r: &Report) {
                 blank: true,
                 rich: false,
                 short_unwrap: false,
+                shared_lines: false,
             },
             4,
         ),
